@@ -2153,6 +2153,9 @@ class Engine:
                 return self.uf('str_int', ['int'], 'str')(v)
             if v.sort() == U:
                 return self.uf('str_U', ['U'], 'str')(v)
+        if isinstance(v, (SRecord, tuple, SList, SMap)):
+            # the text of an object / container (log messages, error texts): some string, nothing is known about it
+            return z3.String(fresh_name('str_of_object'))
         raise Undecided('str() of %r' % (v,))
 
     def ev_Await(self, node, st):
